@@ -33,6 +33,7 @@ _CELLS = [
     ("cubic3", (3.0, 3.0, 3.0), (90, 90, 90)),
     ("ortho234", (2.0, 3.0, 4.0), (90, 90, 90)),
     ("mono110", (3.0, 3.5, 4.0), (90, 110, 90)),
+    ("mono_a75", (3.0, 3.5, 4.0), (75, 90, 90)),          # alpha is the ONLY skewed angle (c has a y component only)
     ("hex60", (3.0, 3.0, 4.0), (90, 90, 60)),
     ("hex120", (3.0, 3.0, 4.0), (90, 90, 120)),
     ("truncoct", (3.0, 3.0, 3.0), (109.4712190, 109.4712190, 109.4712190)),
@@ -54,7 +55,7 @@ def cell_menu(quick=False, unreduced=True):
     (b += a, c += a - b ...), which keeps a along x / b in the xy-plane so the lengths/angles description
     stays exact."""
     out = []
-    names = ["cubic3", "ortho234", "mono110", "hex60", "truncoct", "tric_75_100_115"] if quick else [c[0] for c in _CELLS]
+    names = ["cubic3", "ortho234", "mono110", "mono_a75", "hex60", "truncoct", "tric_75_100_115"] if quick else [c[0] for c in _CELLS]
     for name, L, A in _CELLS:
         if name not in names:
             continue
